@@ -751,7 +751,7 @@ Lemma step_conserves s a c :
   let '(s', r, _) := step wire s a in
   vc_buf (conn_at s c) ++ step_recv s a c = step_read a r c ++ vc_buf (conn_at s' c).
 Proof.
-  destruct a as [m|c' n|c' n m|c' p q|c'|l r p q|]; cbn [step step_recv].
+  destruct a as [m|c' n|c' n m|c' p q|c'|iu p q|]; cbn [step step_recv].
   - pose proof (recv_msg_buf s m c) as H. destruct (recv_msg wire s m) as [[[s' r] fs] sg].
     cbn [step_read]. rewrite H. reflexivity.
   - pose proof (vc_read_buf s c' n c) as H. destruct (vc_read s c' n) as [s' r].
@@ -771,7 +771,8 @@ Proof.
     rewrite conn_at_mk, nth_upd.
     destruct (Nat.eqb c' c && Nat.ltb c (length (s_conns s))) eqn:E; [|reflexivity].
     apply andb_true_iff in E. destruct E as [E _]. apply Nat.eqb_eq in E. subst c'. reflexivity.
-  - destruct (s_alive s); cbn [step_read]; rewrite app_nil_r; reflexivity.
+  - destruct (nth_error (s_udp s) iu) as [[l r]|]; [destruct (s_alive s)|];
+      cbn [step_read]; rewrite app_nil_r; reflexivity.
   - cbn [step_read]. rewrite app_nil_r. destruct (s_alive s); rewrite ?teardown_buf; reflexivity.
 Qed.
 
@@ -867,7 +868,7 @@ Lemma step_closed wire s a c :
   still_closed s (fst (fst (step wire s a))) c.
 Proof.
   intros Hr Hc. assert (Hsame : still_closed s s c) by (split; [exact Hc|lia]).
-  destruct a as [m|c' n|c' n m|c' p q|c'|l r p q|]; cbn [step].
+  destruct a as [m|c' n|c' n m|c' p q|c'|iu p q|]; cbn [step].
   - pose proof (recv_msg_closed wire s m c Hr Hc) as H.
     destruct (recv_msg wire s m) as [[[s' r] fs] sg]. exact H.
   - pose proof (vc_read_closed s c' n c Hc) as H. destruct (vc_read s c' n) as [s' r]. exact H.
@@ -892,7 +893,7 @@ Proof.
   - destruct (vc_closed (conn_at s c')) eqn:Ec; cbn [fst]; [exact Hsame|].
     split; cbn [s_conns]; [|rewrite upd_length; lia]. rewrite conn_at_mk, nth_upd.
     destruct (Nat.eqb c' c && Nat.ltb c (length (s_conns s))) eqn:E; [reflexivity|exact Hc].
-  - destruct (s_alive s); exact Hsame.
+  - destruct (nth_error (s_udp s) iu) as [[l r]|]; [destruct (s_alive s)|]; exact Hsame.
   - cbn [fst]. destruct (s_alive s); [apply teardown_closed, Hc|exact Hsame].
 Qed.
 
@@ -905,6 +906,37 @@ Proof.
   rewrite IH by (try exact H1; lia).
   rewrite app_nil_r. destruct a; cbn [step_recv]; try reflexivity; apply closed_no_recv, Hc.
 Qed.
+
+(* ================================================================== *)
+(* C'. relayed datagrams: the list of datagram pseudo-connections only ever grows at its
+   end - by exactly the (local, remote) pair of a ReadWriteUDP message that serv accepts *)
+Definition udp_new (s : sess) (m : msg) : list (addr * addr) :=
+  match m with
+  | MUdp l r _ => if s_alive s && (is_udp l && is_udp r) then [(l, r)] else []
+  | _ => []
+  end.
+
+Lemma teardown_udp s : s_udp (teardown s) = s_udp s.
+Proof. reflexivity. Qed.
+
+Lemma serv_msg_udp s m :
+  s_udp (fst (fst (fst (serv_msg s m)))) = s_udp s ++ udp_new s m.
+Proof.
+  unfold serv_msg, udp_new. destruct (s_alive s) eqn:Ea; cbn [negb andb].
+  - destruct m as [l r|l r p|? ? ? ? ?|?|l r| |l r p]; cbn [fst s_udp]; rewrite ?app_nil_r; try reflexivity.
+    + destruct (get_conn (s_conns s) (s_reg s) l r) as [j| |]; [destruct (vc_closed (conn_at s j))| |];
+        cbn [fst s_udp]; rewrite ?teardown_udp, ?app_nil_r; reflexivity.
+    + destruct (get_conn (s_conns s) (s_reg s) l r) as [j| |];
+        cbn [fst s_udp]; rewrite ?teardown_udp, ?app_nil_r; reflexivity.
+    + destruct (is_udp l && is_udp r); cbn [fst s_udp]; rewrite ?teardown_udp, ?app_nil_r; reflexivity.
+  - cbn [fst]. destruct m; rewrite app_nil_r; reflexivity.
+Qed.
+
+Lemma vc_read_udp s c n : s_udp (fst (vc_read s c n)) = s_udp s.
+Proof. unfold vc_read. destruct (vc_buf (conn_at s c)); reflexivity. Qed.
+
+Lemma vc_read_alive s c n : s_alive (fst (vc_read s c n)) = s_alive s.
+Proof. unfold vc_read. destruct (vc_buf (conn_at s c)); reflexivity. Qed.
 
 (* ================================================================== *)
 (* D. witnesses for the hypotheses of the round trip *)
@@ -1069,6 +1101,10 @@ Qed.
 Definition qinv (s : sess) : Prop :=
   forall c, (c < length (s_conns s))%nat -> q_addr (vc_l (conn_at s c)) /\ q_addr (vc_r (conn_at s c)).
 
+(* the pairs captured by the datagram pseudo-connections *)
+Definition q_pair (pr : addr * addr) : Prop := q_addr (fst pr) /\ q_addr (snd pr).
+Definition qudp (s : sess) : Prop := Forall q_pair (s_udp s).
+
 Lemma qinv_conns s s' : s_conns s' = s_conns s -> qinv s -> qinv s'.
 Proof. intros E Q c Hc. unfold conn_at. rewrite E in *. apply Q, Hc. Qed.
 
@@ -1121,61 +1157,83 @@ Proof.
     eapply qinv_conns; [|exact Q]. reflexivity.
 Qed.
 
+Lemma serv_msg_qudp s m : qudp s -> q_msg m -> qudp (fst (fst (fst (serv_msg s m)))).
+Proof.
+  intros U Hm. unfold qudp. rewrite serv_msg_udp. apply Forall_app. split; [exact U|].
+  unfold udp_new. destruct m; try constructor.
+  destruct (s_alive s && (is_udp l && is_udp r)); constructor; [|constructor].
+  cbn [q_msg] in Hm. unfold q_pair; cbn [fst snd]. tauto.
+Qed.
+
 Lemma recv_msg_q s m :
-  qinv s -> q_msg m ->
+  qinv s -> qudp s -> q_msg m ->
   recv_msg transport s m = recv_msg ideal_wire s m /\
   let '(s', _, fs, _) := recv_msg ideal_wire s m in
-    qinv s' /\ flat_map (wire_out transport) fs = flat_map (wire_out ideal_wire) fs.
+    qinv s' /\ qudp s' /\ flat_map (wire_out transport) fs = flat_map (wire_out ideal_wire) fs.
 Proof.
-  intros Q Hm. unfold recv_msg, ideal_wire. rewrite (q_transport m Hm). split; [reflexivity|].
-  pose proof (serv_msg_q s m Q Hm) as H. destruct (serv_msg s m) as [[[s' r] fs] sg].
-  destruct H as [H1 H2]. split; [exact H1|apply flat_map_wire_q, H2].
+  intros Q U Hm. unfold recv_msg, ideal_wire. rewrite (q_transport m Hm). split; [reflexivity|].
+  pose proof (serv_msg_q s m Q Hm) as H. pose proof (serv_msg_qudp s m U Hm) as HU.
+  destruct (serv_msg s m) as [[[s' r] fs] sg]. cbn [fst] in HU.
+  destruct H as [H1 H2]. split; [exact H1|]. split; [exact HU|apply flat_map_wire_q, H2].
 Qed.
+
+Lemma qudp_vc_read s c n : qudp s -> qudp (fst (vc_read s c n)).
+Proof. unfold qudp. now rewrite vc_read_udp. Qed.
 
 Definition q_act (s : sess) (a : act) : Prop :=
   match a with
   | ASend m | APark _ _ m => q_msg m
   | AWrite c p _ => (c < length (s_conns s))%nat /\ zlen p <= 65000
-  | AUdpW l r p _ => q_addr l /\ q_addr r /\ zlen p <= 65000
+  | AUdpR _ p _ => zlen p <= 65000
   | ARead _ _ | AClose _ | ADisc => True
   end.
 
 Lemma step_q s a :
-  qinv s -> q_act s a ->
-  step transport s a = step ideal_wire s a /\ qinv (fst (fst (step ideal_wire s a))).
+  qinv s -> qudp s -> q_act s a ->
+  step transport s a = step ideal_wire s a /\
+  qinv (fst (fst (step ideal_wire s a))) /\ qudp (fst (fst (step ideal_wire s a))).
 Proof.
-  intros Q Ha. destruct a as [m|c n|c n m|c p q0|c|l r p q0|]; cbn [step q_act] in *.
-  - destruct (recv_msg_q s m Q Ha) as [E H]. rewrite E.
-    destruct (recv_msg ideal_wire s m) as [[[s' r] fs] sg]. destruct H as [H1 H2]. rewrite H2.
-    split; [reflexivity|exact H1].
-  - pose proof (qinv_vc_read s c n Q) as H. destruct (vc_read s c n) as [s' r]. split; [reflexivity|exact H].
+  intros Q U Ha. destruct a as [m|c n|c n m|c p q0|c|iu p q0|]; cbn [step q_act] in *.
+  - destruct (recv_msg_q s m Q U Ha) as [E H]. rewrite E.
+    destruct (recv_msg ideal_wire s m) as [[[s' r] fs] sg]. destruct H as (H1 & HU & H2). rewrite H2.
+    split; [reflexivity|]. split; [exact H1|exact HU].
+  - pose proof (qinv_vc_read s c n Q) as H. pose proof (qudp_vc_read s c n U) as HU.
+    destruct (vc_read s c n) as [s' r]. split; [reflexivity|]. split; [exact H|exact HU].
   - assert (Himm : (let '(s1, r) := vc_read s c n in
                     let '(s', _, fs, _) := recv_msg transport s1 m in (s', r, flat_map (wire_out transport) fs)) =
                    (let '(s1, r) := vc_read s c n in
                     let '(s', _, fs, _) := recv_msg ideal_wire s1 m in (s', r, flat_map (wire_out ideal_wire) fs)) /\
                    qinv (fst (fst (let '(s1, r) := vc_read s c n in
+                    let '(s', _, fs, _) := recv_msg ideal_wire s1 m in (s', r, flat_map (wire_out ideal_wire) fs)))) /\
+                   qudp (fst (fst (let '(s1, r) := vc_read s c n in
                     let '(s', _, fs, _) := recv_msg ideal_wire s1 m in (s', r, flat_map (wire_out ideal_wire) fs))))).
-    { pose proof (qinv_vc_read s c n Q) as Q1. destruct (vc_read s c n) as [s1 r1]. cbn [fst] in Q1.
-      destruct (recv_msg_q s1 m Q1 Ha) as [E H]. rewrite E.
-      destruct (recv_msg ideal_wire s1 m) as [[[s' r] fs] sg]. destruct H as [H1 H2]. rewrite H2.
-      split; [reflexivity|exact H1]. }
+    { pose proof (qinv_vc_read s c n Q) as Q1. pose proof (qudp_vc_read s c n U) as U1.
+      destruct (vc_read s c n) as [s1 r1]. cbn [fst] in Q1, U1.
+      destruct (recv_msg_q s1 m Q1 U1 Ha) as [E H]. rewrite E.
+      destruct (recv_msg ideal_wire s1 m) as [[[s' r] fs] sg]. destruct H as (H1 & HU & H2). rewrite H2.
+      split; [reflexivity|]. split; [exact H1|exact HU]. }
     destruct (vc_buf (conn_at s c)) as [|b0 bs].
     + destruct (vc_closed (conn_at s c)); [exact Himm|]. clear Himm.
-      destruct (recv_msg_q s m Q Ha) as [E H]. rewrite E.
-      destruct (recv_msg ideal_wire s m) as [[[s1 r1] fs] sg]. destruct H as [H1 H2]. rewrite H2.
-      pose proof (qinv_vc_read s1 c n H1) as H3. destruct (vc_read s1 c n) as [s' r].
-      split; [reflexivity|exact H3].
+      destruct (recv_msg_q s m Q U Ha) as [E H]. rewrite E.
+      destruct (recv_msg ideal_wire s m) as [[[s1 r1] fs] sg]. destruct H as (H1 & HU & H2). rewrite H2.
+      pose proof (qinv_vc_read s1 c n H1) as H3. pose proof (qudp_vc_read s1 c n HU) as HU3.
+      destruct (vc_read s1 c n) as [s' r].
+      split; [reflexivity|]. split; [exact H3|exact HU3].
     + destruct (vc_closed (conn_at s c)); exact Himm.
-  - destruct Ha as [Hc Hp]. destruct (s_alive s); [|split; [reflexivity|exact Q]].
-    split; [|exact Q]. rewrite wire_out_q; [reflexivity|]. cbn [q_msg].
+  - destruct Ha as [Hc Hp]. destruct (s_alive s); [|split; [reflexivity|split; [exact Q|exact U]]].
+    split; [|split; [exact Q|exact U]]. rewrite wire_out_q; [reflexivity|]. cbn [q_msg].
     destruct (Q c Hc) as [H1 H2]. tauto.
-  - destruct (vc_closed (conn_at s c)) eqn:Ec; [split; [reflexivity|exact Q]|].
-    split; [|apply qinv_upd; [exact Q|reflexivity|reflexivity]].
+  - destruct (vc_closed (conn_at s c)) eqn:Ec; [split; [reflexivity|split; [exact Q|exact U]]|].
+    split; [|split; [apply qinv_upd; [exact Q|reflexivity|reflexivity]|exact U]].
     destruct (s_alive s); [|reflexivity]. rewrite wire_out_q; [reflexivity|].
     cbn [q_msg]. apply Q, closed_in_range, Ec.
-  - destruct (s_alive s); [|split; [reflexivity|exact Q]].
-    split; [|exact Q]. rewrite wire_out_q; [reflexivity|]. exact Ha.
-  - split; [reflexivity|]. cbn [fst]. destruct (s_alive s); [apply qinv_teardown, Q|exact Q].
+  - destruct (nth_error (s_udp s) iu) as [[l r]|] eqn:En; [|split; [reflexivity|split; [exact Q|exact U]]].
+    destruct (s_alive s); [|split; [reflexivity|split; [exact Q|exact U]]].
+    split; [|split; [exact Q|exact U]]. rewrite wire_out_q; [reflexivity|]. cbn [q_msg].
+    apply nth_error_In in En. unfold qudp in U. rewrite Forall_forall in U.
+    destruct (U _ En) as [H1 H2]. cbn [fst snd] in H1, H2. tauto.
+  - split; [reflexivity|]. cbn [fst]. destruct (s_alive s); [|split; [exact Q|exact U]].
+    split; [apply qinv_teardown, Q|exact U].
 Qed.
 
 Fixpoint q_run (s : sess) (acts : list act) : Prop :=
@@ -1184,15 +1242,18 @@ Fixpoint q_run (s : sess) (acts : list act) : Prop :=
   | a :: rest => q_act s a /\ q_run (fst (fst (step ideal_wire s a))) rest
   end.
 
-Lemma run_q acts : forall s, qinv s -> q_run s acts -> run transport s acts = run ideal_wire s acts.
+Lemma run_q acts : forall s, qinv s -> qudp s -> q_run s acts -> run transport s acts = run ideal_wire s acts.
 Proof.
-  induction acts as [|a acts IH]; intros s Q H; [reflexivity|]. destruct H as [Ha Hr]. cbn [run].
-  destruct (step_q s a Q Ha) as [E Q1]. rewrite E.
-  destruct (step ideal_wire s a) as [[s1 r] fs]. cbn [fst] in *. rewrite (IH s1 Q1 Hr). reflexivity.
+  induction acts as [|a acts IH]; intros s Q U H; [reflexivity|]. destruct H as [Ha Hr]. cbn [run].
+  destruct (step_q s a Q U Ha) as (E & Q1 & U1). rewrite E.
+  destruct (step ideal_wire s a) as [[s1 r] fs]. cbn [fst] in *. rewrite (IH s1 Q1 U1 Hr). reflexivity.
 Qed.
 
 Lemma qinv0 : qinv sess0.
 Proof. intros c Hc. cbn in Hc. lia. Qed.
+
+Lemma qudp0 : qudp sess0.
+Proof. constructor. Qed.
 
 (* ================================================================== *)
 (* G. buffer ownership on the outgoing path: what the agent receives is what the buffer
@@ -1368,22 +1429,22 @@ Definition keyed_pairs (ps : list (addr * addr)) : Prop := Forall (fun p => pair
 
 Lemma hello_step_shape s p :
   s_alive s = true ->
-  hello_step s p = mkSess (s_conns s ++ [vc_of p]) (s_reg s ++ [length (s_conns s)]) true (s_nudp s).
+  hello_step s p = mkSess (s_conns s ++ [vc_of p]) (s_reg s ++ [length (s_conns s)]) true (s_udp s).
 Proof. intros Ha. unfold hello_step, serv_msg. rewrite Ha. reflexivity. Qed.
 
 Lemma announce_from ps : forall s,
   s_alive s = true ->
   fold_left hello_step ps s =
-    mkSess (s_conns s ++ map vc_of ps) (s_reg s ++ seq (length (s_conns s)) (length ps)) true (s_nudp s).
+    mkSess (s_conns s ++ map vc_of ps) (s_reg s ++ seq (length (s_conns s)) (length ps)) true (s_udp s).
 Proof.
   induction ps as [|p ps IH]; intros s Ha; cbn [fold_left map length seq].
   - rewrite !app_nil_r. destruct s; cbn in *; subst; reflexivity.
-  - rewrite hello_step_shape by exact Ha. rewrite IH by reflexivity. cbn [s_conns s_reg s_nudp].
+  - rewrite hello_step_shape by exact Ha. rewrite IH by reflexivity. cbn [s_conns s_reg s_udp].
     rewrite app_length. cbn [length]. rewrite <- !app_assoc. cbn [app].
     replace (length (s_conns s) + 1)%nat with (S (length (s_conns s))) by lia. reflexivity.
 Qed.
 
-Lemma announce_shape ps : announce ps = mkSess (map vc_of ps) (seq 0 (length ps)) true 0.
+Lemma announce_shape ps : announce ps = mkSess (map vc_of ps) (seq 0 (length ps)) true [].
 Proof. unfold announce. rewrite announce_from by reflexivity. reflexivity. Qed.
 
 Lemma map_nth_seq {A B} (f : A -> B) (d : A) (l : list A) :
@@ -1512,3 +1573,315 @@ Lemma concat_key_collides :
   concat_key cw_l1 cw_r1 =
     [49;48;46;48;46;48;46;53;58;50;50;50;50;49;48;46;49;46;49;46;49;58;52;48;48;48;48]%N.
 Proof. vm_compute. repeat split; discriminate. Qed.
+
+(* ================================================================== *)
+(* H. relayed datagrams: each is its own flow *)
+
+Lemma run_app wire a : forall s b,
+  run wire s (a ++ b) =
+  let '(s1, rs1, fs1) := run wire s a in
+  let '(s2, rs2, fs2) := run wire s1 b in (s2, rs1 ++ rs2, fs1 ++ fs2).
+Proof.
+  induction a as [|x a IH]; intros s b; cbn [app run].
+  - destruct (run wire s b) as [[s2 rs2] fs2]. reflexivity.
+  - destruct (step wire s x) as [[s1 r] fs]. rewrite IH.
+    destruct (run wire s1 a) as [[s1' rs1] fs1]. destruct (run wire s1' b) as [[s2 rs2] fs2].
+    cbn [app]. rewrite app_assoc. reflexivity.
+Qed.
+
+(* an answer on datagram i: one frame with the pair captured for datagram i; no state changes *)
+Lemma answer_tagged s i l r p q :
+  s_alive s = true -> nth_error (s_udp s) i = Some (l, r) ->
+  step ideal_wire s (AUdpR i p q) = (s, RNone, [MUdp l r p]).
+Proof. intros Ha Hn. cbn [step]. rewrite Hn, Ha. reflexivity. Qed.
+
+Lemma answer_no_state wire s i p q : fst (fst (step wire s (AUdpR i p q))) = s.
+Proof. cbn [step]. destruct (nth_error (s_udp s) i) as [[l r]|]; [destruct (s_alive s)|]; reflexivity. Qed.
+
+(* relaying a datagram: the services get exactly it; only the list of datagram flows grows *)
+Lemma relay_one s d :
+  s_alive s = true -> dg_udp d = true ->
+  step ideal_wire s (ASend (dg_msg d)) =
+    (set_udp s (s_udp s ++ [dg_pair d]), RUdpAcc (fst (fst d)) (snd (fst d)) (snd d), []).
+Proof.
+  intros Ha Hd. destruct d as [[l r] p]. unfold dg_udp, dg_msg, dg_pair in *. cbn [fst snd] in *.
+  cbn [step recv_msg ideal_wire]. unfold serv_msg. rewrite Ha, Hd. cbn [negb flat_map]. unfold set_udp. rewrite Ha. reflexivity.
+Qed.
+
+Lemma relay_run ds : forall s,
+  s_alive s = true -> forallb dg_udp ds = true ->
+  run ideal_wire s (relay_acts ds) = (set_udp s (s_udp s ++ map dg_pair ds), relay_res ds, []).
+Proof.
+  induction ds as [|d ds IH]; intros s Ha Hd; cbn [relay_acts relay_res map run].
+  - rewrite app_nil_r. destruct s; cbn in *; reflexivity.
+  - cbn [forallb] in Hd. apply andb_true_iff in Hd. destruct Hd as [Hd Hds].
+    rewrite relay_one by assumption. fold (relay_acts ds).
+    rewrite IH by (try exact Hds; exact Ha). fold (relay_res ds).
+    unfold set_udp; cbn [s_conns s_reg s_alive s_udp app]. rewrite <- app_assoc. reflexivity.
+Qed.
+
+(* ALL schedules: induction over the schedule *)
+Lemma answers_run sch : forall s,
+  s_alive s = true ->
+  run ideal_wire s (answer_acts sch) = (s, map (fun _ => RNone) sch, answer_frames (s_udp s) sch).
+Proof.
+  induction sch as [|x sch IH]; intros s Ha; cbn [answer_acts map run answer_frames flat_map]; [reflexivity|].
+  fold (answer_acts sch). fold (answer_frames (s_udp s) sch).
+  destruct x as [[i p] q]. cbn [fst snd]. cbn [step].
+  destruct (nth_error (s_udp s) i) as [[l r]|]; rewrite ?Ha, IH by exact Ha; reflexivity.
+Qed.
+
+Lemma udp_replies_keep_their_pair ds sch s :
+  s_alive s = true -> forallb dg_udp ds = true ->
+  run ideal_wire s (relay_acts ds ++ answer_acts sch) =
+    (set_udp s (s_udp s ++ map dg_pair ds),
+     relay_res ds ++ map (fun _ => RNone) sch,
+     answer_frames (s_udp s ++ map dg_pair ds) sch).
+Proof.
+  intros Ha Hd. rewrite run_app, relay_run by assumption.
+  rewrite answers_run by exact Ha. reflexivity.
+Qed.
+
+(* ---- whatever arrives in between: the pair of a datagram flow never changes ---- *)
+Section AnyWire.
+Variable wire : msg -> option msg.
+
+Definition new_of (s : sess) (m : msg) : list (addr * addr) :=
+  match wire m with Some m' => udp_new s m' | None => [] end.
+
+Definition step_new (s : sess) (a : act) : list (addr * addr) :=
+  match a with
+  | ASend m => new_of s m
+  | APark _ _ m => new_of s m
+  | _ => []
+  end.
+
+Lemma recv_msg_udp s m : s_udp (fst (fst (fst (recv_msg wire s m)))) = s_udp s ++ new_of s m.
+Proof.
+  unfold recv_msg, new_of. destruct (wire m) as [m'|]; [apply serv_msg_udp|].
+  destruct (s_alive s); cbn [fst]; rewrite ?teardown_udp, app_nil_r; reflexivity.
+Qed.
+
+Lemma udp_new_alive s s' m : s_alive s' = s_alive s -> udp_new s' m = udp_new s m.
+Proof. intros E. unfold udp_new. rewrite E. reflexivity. Qed.
+
+Lemma step_udp s a : s_udp (fst (fst (step wire s a))) = s_udp s ++ step_new s a.
+Proof.
+  destruct a as [m|c n|c n m|c p q|c|i p q|]; cbn [step step_new].
+  - pose proof (recv_msg_udp s m) as H. destruct (recv_msg wire s m) as [[[s' r] fs] k]. exact H.
+  - pose proof (vc_read_udp s c n) as H. destruct (vc_read s c n) as [s' r]. rewrite app_nil_r. exact H.
+  - assert (Himm : s_udp (fst (fst (let '(s1, r) := vc_read s c n in
+                      let '(s', _, fs, _) := recv_msg wire s1 m in (s', r, flat_map (wire_out wire) fs)))) =
+                   s_udp s ++ new_of s m).
+    { pose proof (vc_read_udp s c n) as H1. pose proof (vc_read_alive s c n) as H2.
+      destruct (vc_read s c n) as [s1 r1]. cbn [fst] in H1, H2.
+      pose proof (recv_msg_udp s1 m) as H3. destruct (recv_msg wire s1 m) as [[[s' r] fs] k].
+      cbn [fst] in *. rewrite H3, H1. unfold new_of. destruct (wire m); [|reflexivity].
+      now rewrite (udp_new_alive s s1). }
+    destruct (vc_buf (conn_at s c)) as [|b0 bs].
+    + destruct (vc_closed (conn_at s c)); [exact Himm|]. clear Himm.
+      pose proof (recv_msg_udp s m) as H. destruct (recv_msg wire s m) as [[[s1 r1] fs] k]. cbn [fst] in H.
+      pose proof (vc_read_udp s1 c n) as H2. destruct (vc_read s1 c n) as [s' r]. cbn [fst] in *. now rewrite H2.
+    + destruct (vc_closed (conn_at s c)); exact Himm.
+  - rewrite app_nil_r. destruct (s_alive s); reflexivity.
+  - rewrite app_nil_r. destruct (vc_closed (conn_at s c)); reflexivity.
+  - rewrite app_nil_r. apply (f_equal s_udp (answer_no_state wire s i p q)).
+  - rewrite app_nil_r. cbn [fst]. destruct (s_alive s); reflexivity.
+Qed.
+
+Lemma run_step s a acts :
+  fst (fst (run wire s (a :: acts))) = fst (fst (run wire (fst (fst (step wire s a))) acts)).
+Proof.
+  cbn [run]. destruct (step wire s a) as [[s1 r] fs]. cbn [fst]. destruct (run wire s1 acts) as [[s2 rs] fs2]. reflexivity.
+Qed.
+
+Lemma pair_survives acts : forall s i pr,
+  nth_error (s_udp s) i = Some pr ->
+  nth_error (s_udp (fst (fst (run wire s acts)))) i = Some pr.
+Proof.
+  induction acts as [|a acts IH]; intros s i pr H; [exact H|].
+  rewrite run_step. apply IH. rewrite step_udp.
+  rewrite nth_error_app1; [exact H|]. apply nth_error_Some. congruence.
+Qed.
+End AnyWire.
+
+(* ---- the datagram flows are invisible to everything but an answer ---- *)
+Lemma teardown_set_udp s u : teardown (set_udp s u) = set_udp (teardown s) u.
+Proof. reflexivity. Qed.
+
+Lemma serv_msg_set_udp s u m :
+  serv_msg (set_udp s u) m =
+  let '(s', r, fs, k) := serv_msg s m in (set_udp s' (u ++ udp_new s m), r, fs, k).
+Proof.
+  unfold serv_msg, udp_new, set_udp, conn_at. cbn [s_conns s_reg s_alive s_udp].
+  destruct (s_alive s) eqn:Ea; cbn [negb andb].
+  - destruct m as [l r|l r p|? ? ? ? ?|?|l r| |l r p]; cbn [s_conns s_reg s_alive s_udp];
+      rewrite ?Ea, ?app_nil_r; try reflexivity.
+    + destruct (get_conn (s_conns s) (s_reg s) l r) as [j| |]; cbn [s_conns s_reg s_alive s_udp];
+        rewrite ?Ea; try reflexivity.
+      destruct (vc_closed (nth j (s_conns s) dummy_vc)); cbn [s_conns s_reg s_alive s_udp]; rewrite ?Ea; reflexivity.
+    + destruct (get_conn (s_conns s) (s_reg s) l r) as [j| |]; cbn [s_conns s_reg s_alive s_udp];
+        rewrite ?Ea; reflexivity.
+    + destruct (is_udp l && is_udp r); cbn [s_conns s_reg s_alive s_udp]; rewrite ?Ea, ?app_nil_r; reflexivity.
+  - destruct m; cbn [s_conns s_reg s_alive s_udp]; rewrite ?Ea, ?app_nil_r; reflexivity.
+Qed.
+
+Lemma recv_msg_set_udp wire s u m :
+  recv_msg wire (set_udp s u) m =
+  let '(s', r, fs, k) := recv_msg wire s m in (set_udp s' (u ++ new_of wire s m), r, fs, k).
+Proof.
+  unfold recv_msg, new_of. destruct (wire m) as [m'|]; [apply serv_msg_set_udp|].
+  cbn [set_udp s_alive]. destruct (s_alive s) eqn:Ea; rewrite app_nil_r.
+  - rewrite teardown_set_udp. reflexivity.
+  - unfold set_udp. reflexivity.
+Qed.
+
+Lemma vc_read_set_udp s u c n :
+  vc_read (set_udp s u) c n = let '(s', r) := vc_read s c n in (set_udp s' u, r).
+Proof.
+  unfold vc_read, set_udp, conn_at. cbn [s_conns s_reg s_alive s_udp].
+  destruct (vc_buf (nth c (s_conns s) dummy_vc)); reflexivity.
+Qed.
+
+Lemma step_set_udp wire s u a :
+  (forall i p q, a <> AUdpR i p q) ->
+  step wire (set_udp s u) a =
+  let '(s', r, fs) := step wire s a in (set_udp s' (u ++ step_new wire s a), r, fs).
+Proof.
+  intros Hn. destruct a as [m|c n|c n m|c p q|c|i p q|]; cbn [step step_new].
+  - rewrite recv_msg_set_udp. destruct (recv_msg wire s m) as [[[s' r] fs] k]. reflexivity.
+  - rewrite vc_read_set_udp. destruct (vc_read s c n) as [s' r]. now rewrite app_nil_r.
+  - assert (Himm : (let '(s1, r) := vc_read (set_udp s u) c n in
+                    let '(s', _, fs, _) := recv_msg wire s1 m in (s', r, flat_map (wire_out wire) fs)) =
+                   (let '(s', r, fs) := (let '(s1, r) := vc_read s c n in
+                                         let '(s', _, fs, _) := recv_msg wire s1 m in (s', r, flat_map (wire_out wire) fs)) in
+                    (set_udp s' (u ++ new_of wire s m), r, fs))).
+    { rewrite vc_read_set_udp. pose proof (vc_read_alive s c n) as H2.
+      destruct (vc_read s c n) as [s1 r1]. cbn [fst] in H2.
+      rewrite recv_msg_set_udp. destruct (recv_msg wire s1 m) as [[[s' r] fs] k].
+      unfold new_of. destruct (wire m); [|reflexivity]. now rewrite (udp_new_alive s s1). }
+    change (conn_at (set_udp s u) c) with (conn_at s c).
+    destruct (vc_buf (conn_at s c)) as [|b0 bs].
+    + destruct (vc_closed (conn_at s c)); [exact Himm|]. clear Himm.
+      rewrite recv_msg_set_udp. destruct (recv_msg wire s m) as [[[s1 r1] fs] k].
+      rewrite vc_read_set_udp. destruct (vc_read s1 c n) as [s' r]. reflexivity.
+    + destruct (vc_closed (conn_at s c)); exact Himm.
+  - rewrite app_nil_r. change (conn_at (set_udp s u) c) with (conn_at s c). cbn [set_udp s_alive].
+    destruct (s_alive s) eqn:Ea; unfold set_udp; rewrite ?Ea; reflexivity.
+  - rewrite app_nil_r. change (conn_at (set_udp s u) c) with (conn_at s c).
+    destruct (vc_closed (conn_at s c)); reflexivity.
+  - exfalso. eapply Hn. reflexivity.
+  - rewrite app_nil_r. cbn [set_udp s_alive]. destruct (s_alive s) eqn:Ea.
+    + rewrite teardown_set_udp. reflexivity.
+    + unfold set_udp. rewrite Ea. reflexivity.
+Qed.
+
+Definition tcp_same (s1 s2 : sess) : Prop :=
+  s_conns s1 = s_conns s2 /\ s_reg s1 = s_reg s2 /\ s_alive s1 = s_alive s2.
+
+Lemma tcp_same_set s1 s2 : tcp_same s1 s2 -> s1 = set_udp s2 (s_udp s1).
+Proof. destruct s1, s2. unfold tcp_same, set_udp. cbn. intros (-> & -> & ->). reflexivity. Qed.
+
+Lemma tcp_same_set_udp s u : tcp_same (set_udp s u) s.
+Proof. repeat split. Qed.
+
+Lemma tcp_same_refl s : tcp_same s s.
+Proof. repeat split. Qed.
+
+Lemma tcp_same_trans a b c : tcp_same a b -> tcp_same b c -> tcp_same a c.
+Proof. unfold tcp_same. intros (A1 & A2 & A3) (B1 & B2 & B3). repeat split; congruence. Qed.
+
+Definition no_udp (fs : list msg) : Prop := filter (fun f => negb (is_udp_msg f)) fs = fs.
+
+Lemma serv_msg_no_udp s m : no_udp (snd (fst (serv_msg s m))).
+Proof.
+  unfold serv_msg, no_udp. destruct (negb (s_alive s)); [reflexivity|].
+  destruct m as [l r|l r p|? ? ? ? ?|?|l r| |l r p]; try reflexivity.
+  - destruct (get_conn (s_conns s) (s_reg s) l r) as [j| |]; try reflexivity.
+    destruct (vc_closed (conn_at s j)); reflexivity.
+  - destruct (get_conn (s_conns s) (s_reg s) l r) as [j| |]; try reflexivity.
+    destruct (vc_closed (conn_at s j)); reflexivity.
+  - destruct (is_udp l && is_udp r); reflexivity.
+Qed.
+
+Lemma flat_map_ideal fs : flat_map (wire_out ideal_wire) fs = fs.
+Proof. induction fs as [|f fs IH]; [reflexivity|]. cbn [flat_map wire_out ideal_wire app]. now rewrite IH. Qed.
+
+Lemma recv_msg_no_udp s m : no_udp (snd (fst (recv_msg ideal_wire s m))).
+Proof. unfold recv_msg, ideal_wire. apply serv_msg_no_udp. Qed.
+
+(* an action outside the relay: emits no datagram frame *)
+Lemma step_other_no_udp s a : is_relay_act a = false -> no_udp (snd (step ideal_wire s a)).
+Proof.
+  intros Hr. destruct a as [m|c n|c n m|c p q|c|i p q|]; cbn [step].
+  - pose proof (recv_msg_no_udp s m) as H. destruct (recv_msg ideal_wire s m) as [[[s' r] fs] k].
+    cbn [fst snd] in *. now rewrite flat_map_ideal.
+  - destruct (vc_read s c n) as [s' r]. reflexivity.
+  - assert (Himm : no_udp (snd (let '(s1, r) := vc_read s c n in
+                      let '(s', _, fs, _) := recv_msg ideal_wire s1 m in (s', r, flat_map (wire_out ideal_wire) fs)))).
+    { destruct (vc_read s c n) as [s1 r1]. pose proof (recv_msg_no_udp s1 m) as H.
+      destruct (recv_msg ideal_wire s1 m) as [[[s' r] fs] k]. cbn [fst snd] in *. now rewrite flat_map_ideal. }
+    destruct (vc_buf (conn_at s c)) as [|b0 bs].
+    + destruct (vc_closed (conn_at s c)); [exact Himm|]. clear Himm.
+      pose proof (recv_msg_no_udp s m) as H. destruct (recv_msg ideal_wire s m) as [[[s1 r1] fs] k].
+      destruct (vc_read s1 c n) as [s' r]. cbn [fst snd] in *. now rewrite flat_map_ideal.
+    + destruct (vc_closed (conn_at s c)); exact Himm.
+  - destruct (s_alive s); reflexivity.
+  - destruct (vc_closed (conn_at s c)); [reflexivity|]. destruct (s_alive s); reflexivity.
+  - discriminate Hr.
+  - reflexivity.
+Qed.
+
+(* ... and behaves the same whatever datagram flows there are *)
+Lemma step_other_same s1 s2 a :
+  tcp_same s1 s2 -> is_relay_act a = false ->
+  tcp_same (fst (fst (step ideal_wire s1 a))) (fst (fst (step ideal_wire s2 a))) /\
+  snd (fst (step ideal_wire s1 a)) = snd (fst (step ideal_wire s2 a)) /\
+  snd (step ideal_wire s1 a) = snd (step ideal_wire s2 a).
+Proof.
+  intros T Hr. rewrite (tcp_same_set s1 s2 T).
+  rewrite step_set_udp by (intros i p q E; subst a; discriminate Hr).
+  destruct (step ideal_wire s2 a) as [[s' r] fs]. cbn [fst snd].
+  split; [apply tcp_same_set_udp|]. split; reflexivity.
+Qed.
+
+(* an action of the relay: touches nothing but the datagram flows, emits only datagram frames *)
+Lemma step_relay s a :
+  is_relay_act a = true ->
+  tcp_same (fst (fst (step ideal_wire s a))) s /\
+  filter (fun f => negb (is_udp_msg f)) (snd (step ideal_wire s a)) = [].
+Proof.
+  intros Hr. destruct a as [m|c n|c n m|c p q|c|i p q|]; try discriminate Hr.
+  - destruct m as [l r|l r p|? ? ? ? ?|?|l r| |l r p]; try discriminate Hr. cbn [is_relay_act] in Hr.
+    cbn [step recv_msg ideal_wire]. unfold serv_msg. rewrite Hr.
+    destruct (s_alive s) eqn:Ea; cbn [negb fst snd flat_map filter]; split; try reflexivity.
+    all: unfold tcp_same; cbn [s_conns s_reg s_alive]; rewrite ?Ea; auto.
+  - cbn [step]. destruct (nth_error (s_udp s) i) as [[l r]|]; [destruct (s_alive s)|];
+      cbn [fst snd]; split; try reflexivity; apply tcp_same_refl.
+Qed.
+
+Lemma udp_relay_leaves_tcp_alone acts : forall s1 s2,
+  tcp_same s1 s2 ->
+  let '(t1, rs1, fs1) := run ideal_wire s1 acts in
+  let '(t2, rs2, fs2) := run ideal_wire s2 (filter (fun a => negb (is_relay_act a)) acts) in
+  tcp_same t1 t2 /\ other_res acts rs1 = rs2 /\ filter (fun f => negb (is_udp_msg f)) fs1 = fs2.
+Proof.
+  induction acts as [|a acts IH]; intros s1 s2 T; cbn [run filter other_res].
+  - repeat split; apply T.
+  - destruct (is_relay_act a) eqn:Hr; cbn [negb].
+    + destruct (step_relay s1 a Hr) as [T1 F1].
+      destruct (step ideal_wire s1 a) as [[s1' r] fs]. cbn [fst snd] in T1, F1.
+      specialize (IH s1' s2 (tcp_same_trans _ _ _ T1 T)).
+      destruct (run ideal_wire s1' acts) as [[t1 rs1] fs1].
+      destruct (run ideal_wire s2 (filter (fun a => negb (is_relay_act a)) acts)) as [[t2 rs2] fs2].
+      destruct IH as (I1 & I2 & I3). rewrite filter_app, F1. cbn [app]. auto.
+    + destruct (step_other_same s1 s2 a T Hr) as (T1 & R1 & F1).
+      pose proof (step_other_no_udp s1 a Hr) as N1. cbn [run].
+      destruct (step ideal_wire s1 a) as [[s1' r1] f1]. destruct (step ideal_wire s2 a) as [[s2' r2] f2].
+      cbn [fst snd] in *. subst r2 f2.
+      specialize (IH s1' s2' T1).
+      destruct (run ideal_wire s1' acts) as [[t1 rs1] fs1].
+      destruct (run ideal_wire s2' (filter (fun a => negb (is_relay_act a)) acts)) as [[t2 rs2] fs2].
+      destruct IH as (I1 & I2 & I3). rewrite ?Hr, filter_app. unfold no_udp in N1. rewrite N1, I2, I3. auto.
+Qed.
+
